@@ -251,7 +251,8 @@ M('F22R', 'src/xdoctest/utils/util_import.py', """        base = os.path.normpat
         subdir = os.path.normpath(dirname(modpath))
 """, """        subdir = dirname(modpath)
 """, ['C17'], 'F22 repair reverted: a search path entry with a trailing separator resolves nothing')
-M('F23R', 'src/xdoctest/directive.py', """                         for line in text.splitlines() if line.strip())""", """                         for line in text.splitlines())""", ['C04'], 'F23 repair reverted: blank prompt lines after a block directive turn it into an inline one')
+M('F23R', 'src/xdoctest/directive.py', """                         for line in utils.util_str.split_lf_lines(text)
+                         if line.strip())""", """                         for line in utils.util_str.split_lf_lines(text))""", ['C04'], 'F23 repair reverted: blank prompt lines after a block directive turn it into an inline one')
 M('F24R', 'src/xdoctest/static_analysis.py', """    # Only iterate through non-blank lines otherwise tokenize will stop short
     iterable = (line for line in lines if line.strip())
     def _readline():
